@@ -147,10 +147,10 @@ CLAIMED["C16"] = dict(
 CLAIMED["C04"] = dict(
     engine="symx",
     technique="symbolic execution of RunT/setup/run/Defer/removeAll from go/ssa over a file-system and environment model; exit kind, host environment and retention flags decided by z3",
-    text=("Claimed in part (sequential clauses only): after setup the work directory holds exactly the archive's files, the script environment contains only the documented variables, Setup's additions and the "
+    text=("Claimed in part (scripts run one at a time): after setup the work directory holds exactly the archive's files, the script environment contains only the documented variables, Setup's additions and the "
           "GOCOVERDIR/GORACE pass-through (no other host variable or value), deferred functions run in reverse order on pass, fail, skip and stop, and the work directory and - after the last script - the temp root are removed "
-          "unless TestWork/WorkdirRoot ask to keep them (read-only directories included). Interference between parallel scripts and process liveness are outside this technique's reach and are not claimed."),
-    design_ref="DESIGN.md §4 C04",
+          "unless TestWork/WorkdirRoot ask to keep them (read-only directories included); also when Params.Setup itself ends the run. Over a process model (background commands that exit by themselves or run until signalled; exec, os.Process and waitOrStop stubbed; the waiting goroutine run by symx's deferred-goroutine model): when RunT ends - pass, wait, failing line, skip, stop - every started process has ended and been waited for. Interference between scripts running in parallel goroutines and real OS processes are not claimed."),
+    design_ref="DESIGN.md §4 C04, §0.8",
     note=FS_NOTE,
 )
 
@@ -173,7 +173,7 @@ CLAIMED["C09"] = dict(
     technique="bounded model checking: par.Work's go/ssa is translated to a transition system; scheduler, rand.Intn picks, Signal wake-up choices, item graph and initial adds are solver variables; z3 decides safety, deadlock and an unwinding assertion",
     text=("(*Work).Do, runner, Add and init are translated from their SSA form into guarded transitions (one per scheduling point; lock-protected regions fused) and unrolled K steps with the scheduler as a bit-vector per step. "
           "z3 shows, for every schedule, every rand.Intn pick, every choice of woken waiter, every item graph and every set of initial adds inside the bound: f runs at most once per item and exactly once for every added item, never more than n calls in progress, "
-          "Do returns only when everything is done and nothing is left, no deadlock or lost wake-up, and every schedule finishes within K steps (unwinding assertion); a witness run must exist."),
+          "Do returns only when everything is done and nothing is left, no deadlock, no lost wake-up (no state with the mutex free in which a runner sleeps while more items are queued than runners have been woken and are on their way), and every schedule finishes within K steps (unwinding assertion); a witness run must exist."),
     design_ref="DESIGN.md §4 C09",
     note=TSYS_NOTE,
 )
